@@ -6,7 +6,7 @@ from lib import recipe, tlc
 BASE = dict(NJobs=2, Procs=2, MaxPid=3, MaxTime=3, PoolSoft=0, PoolHard=0,
             JobLimits=[(0, 0)], Grace=1, Quota=0, PutLocks=True, MaxR=0, MaxT=1,
             Statuses=[-9], Results=['ok', 'err'], MaxDup=0, UserCalls=[], Periodic=False,
-            DevRemark=False, DevShrinkSame=False, TolLateAckStatus=True, TolLateReadySlot=True,
+            DevRemark=False, DevShrinkSame=False, FineScan=False, DevSoftNoReady=False, TolLateAckStatus=True, TolLateReadySlot=True,
             DevNoCreditLate=True)
 
 
@@ -55,9 +55,9 @@ class Maker:
 # ---------------------------------------------------------------------------
 # formulas per property
 FORMULAS = {
-    'C01': (['CallbacksOnce', 'ResolvedHasCallback', 'CacheExact', 'AckBeforeResult'],
+    'C01': (['CallbacksOnce', 'ResolvedHasCallback', 'CacheExact', 'AckBeforeResult', 'QuietResolved'],
             ['OutcomeStable', 'OwnOutcome', 'LateIgnored']),
-    'C04': (['LostOnlyIfReal', 'LostNotLate', 'LostOutcomeReal'],
+    'C04': (['LostOnlyIfReal', 'LostNotLate', 'LostOutcomeReal', 'QuietResolved'],
             ['LostMarkRight', 'LostNotEarly', 'SizeAfterMaintain', 'OwnOutcome']),
     'C05': (['NoFalseTimeout', 'HardWithinScan', 'TimeoutCallbackOnce', 'TimeoutCallbackArgs'],
             ['VictimGone', 'OwnOutcome', 'SizeAfterMaintain']),
@@ -124,6 +124,25 @@ SCEN = {
             walks=cfg(NJobs=3, Procs=2, MaxPid=5, MaxTime=7,
                       JobLimits=[(0, 0), (1, 2), (0, 1), (2, 0), (3, 2)], PoolSoft=2, PoolHard=4,
                       Statuses=[-9, 1], Periodic=True))),
+    'finescan': dict(
+        serves=['C05', 'C06', 'C01'],
+        quick=dict(
+            wide=cfg(NJobs=2, Procs=1, MaxPid=2, MaxTime=3, JobLimits=[(1, 2), (0, 1)], PoolSoft=1,
+                     Statuses=[-9], Results=['ok'], FineScan=True),
+            small=[cfg(NJobs=1, Procs=1, MaxPid=2, MaxTime=2, JobLimits=[(1, 2), (0, 1)],
+                       Statuses=[-9], Results=['ok'], FineScan=True),
+                   cfg(NJobs=2, Procs=1, MaxPid=2, MaxTime=1, JobLimits=[(1, 0), (0, 1)],
+                       Statuses=[-9], Results=['ok'], FineScan=True)],
+            walks=cfg(NJobs=3, Procs=2, MaxPid=4, MaxTime=5, JobLimits=[(0, 0), (1, 2), (0, 1), (2, 0)],
+                      PoolSoft=2, PoolHard=4, Statuses=[-9], FineScan=True)),
+        thorough=dict(
+            wide=cfg(NJobs=2, Procs=2, MaxPid=3, MaxTime=3, JobLimits=[(1, 2), (0, 1), (0, 0)],
+                     PoolSoft=1, PoolHard=3, Statuses=[-9], Results=['ok'], FineScan=True),
+            small=[cfg(NJobs=2, Procs=1, MaxPid=2, MaxTime=3, JobLimits=[(1, 2), (0, 1)], PoolSoft=1,
+                       Statuses=[-9], Results=['ok'], FineScan=True)],
+            walks=cfg(NJobs=3, Procs=2, MaxPid=5, MaxTime=6,
+                      JobLimits=[(0, 0), (1, 2), (0, 1), (2, 0), (3, 2)], PoolSoft=2, PoolHard=4,
+                      Statuses=[-9, 1], FineScan=True))),
     'losstiming': dict(
         serves=['C04'],
         quick=dict(
